@@ -119,7 +119,7 @@ def gen_cases(ctx):
         yield dict(part='request', doc=mk(jsonrpc=j, id=i, method=m, params=p))
     for j, i, r, e in itertools.product(MEMBER, MEMBER, MEMBER, ERRORS):
         yield dict(part='response', doc=mk(jsonrpc=j, id=i, result=r, error=e))
-    for c, m, d in itertools.product(MEMBER + [2 ** 70, -32601], MEMBER, MEMBER):
+    for c, m, d in itertools.product(MEMBER + [2 ** 70, -32601, -32000, -32000.0, -32000.5], MEMBER, MEMBER):
         yield dict(part='error', doc=mk(code=c, message=m, data=d))
     for v in NONOBJ:
         for part in ('request', 'response', 'error', 'batchreq', 'batchresp'):
@@ -192,6 +192,8 @@ def run_response(case, rec):
 
 
 def run_error(case, rec):
+    from pjrpc.common import exceptions as exc
+    from mc.harness.methods import registered_error
     doc = case['doc']
     cls = error_class(doc)
     out = outcome(JsonRpcError.from_json, doc)
@@ -199,6 +201,18 @@ def run_error(case, rec):
         if not same_error(out[1], doc):
             rec.violation('C06:error:fields differ from the input', case, expected=doc, observed=repr(out[1]))
         rec.nontrivial_n += 1
+    # the typed entry points: from_json called on a class that has a code of its own (True == 1, False == 0, -32000.0 == -32000)
+    for typed in (exc.ServerError, exc.MethodNotFoundError, registered_error(1), registered_error(0)):
+        out = outcome(typed.from_json, doc)
+        rec.transitions += 1
+        if judge(rec, 'error', dict(case, entry=typed.__name__ + '.from_json'), cls, out):
+            if not same_error(out[1], doc):
+                rec.violation('C06:error:fields differ from the input', dict(case, entry=typed.__name__ + '.from_json'), expected=doc, observed=repr(out[1]))
+    # ... and a response carrying the error, deserialised with such a class as error_cls
+    for typed in (exc.ServerError, registered_error(1)):
+        out = outcome(lambda d: Response.from_json(d, error_cls=typed), {'jsonrpc': '2.0', 'id': 1, 'error': doc})
+        rec.transitions += 1
+        judge(rec, 'response', dict(case, entry='Response.from_json(error_cls=%s)' % typed.__name__), cls, out)
 
 
 def ids_dup(ids):
